@@ -412,7 +412,7 @@ def run(report, p):
     include_rules(report, p, 'c13', ['R13.7'], 'the <folder> part of NNNN_<folder>_<time>Z.mhl is the name of the root folder, whatever the spelling of the root (., x/., trailing separator)')
     include_rules(report, p, 'c08', ['R8.6'], 'exactly one new manifest and chain entry per touched history: the commit loop writes every history that received records or references, and skips only the others')
     include_rules(report, p, 'c16', ['R16.4'], 'the manifest name carries the UTC time')
-    include_rules(report, p, 'c10', ['R10.3'], 'the chain entry names its manifest through the path conversion: a conversion that rewrites a character of the folder name (a backslash on POSIX) makes the entry name a file that does not exist, and the history no longer loads (exit 33)')
+    include_rules(report, p, 'c10', ['R10.9'], 'the chain entry names its manifest through the path conversion: a conversion that rewrites a character of the folder name (a backslash on POSIX) makes the entry name a file that does not exist, and the history no longer loads (exit 33)')
     report.not_decided += ["byte-for-byte stability of earlier manifests at run time", "collision of the fresh name with a foreign file", "several runs within the same clock second (names differ by number, not by time)"]
 
 
